@@ -1,0 +1,101 @@
+//go:build verif
+
+// Contracts for the verifier in /verif (govc). Comment-only: no declarations.
+
+package dns
+
+//@ ghost G_lastenc() interface{}
+
+// Addresses are compared by their textual form, which is a function of the address value.
+//@ iface (net.Addr).String (a net.Addr) (result string)
+//@   stable
+
+//@ iface (github.com/bokysan/socketace/v2/internal/streams/dns.ServerCommunicator).LocalAddr (c ServerCommunicator) (result net.Addr)
+//@   pure
+
+//@ nonnil-dynamic github.com/bokysan/socketace/v2/internal/streams/dns/commands.Request
+
+// ===================================================================================================
+// session table of the DNS tunnel server (C13) and robustness of its message handlers (C12)
+
+//@ go func sameAddr(a, b net.Addr) bool { return a.String() == b.String() }
+
+//@ go func connWF(u *userConnection) bool {
+//@    return u.Serializer.Upstream.Encoder != nil && u.Serializer.Downstream.Encoder != nil &&
+//@       u.Serializer.Downstream.FragmentSize > 0 && u.remoteAddress != nil &&
+//@       util.InWF(&u.in) && util.OutWF(&u.out)
+//@ }
+
+//@ pred srvBase(s *ServerDnsListener) := len(s.connections) == 1296 && len(s.oldConnections) == 1296 && !spec_sameref(s.connections, s.oldConnections)
+//@      && s.usersLock != nil && s.Communicator != nil
+//@      && s.DefaultSerializer.Upstream.Encoder != nil && s.DefaultSerializer.Downstream.Encoder != nil
+//@      && s.DefaultSerializer.Downstream.FragmentSize > 0
+//@ pred connsWF(s *ServerDnsListener) := forall i :: 0 <= i && i < len(s.connections) ==> s.connections[i] == nil || (spec_allocated(s.connections[i]) && int(s.connections[i].UserId) == i && connWF(s.connections[i]))
+//@ pred oldWF(s *ServerDnsListener) := forall i :: 0 <= i && i < len(s.oldConnections) ==> s.oldConnections[i] == nil || (spec_allocated(s.oldConnections[i]) && int(s.oldConnections[i].UserId) == i && s.oldConnections[i].remoteAddress != nil)
+//@ pred srvWF(s *ServerDnsListener) := srvBase(s) && connsWF(s) && oldWF(s)
+
+//@ func (s *ServerDnsListener) Addr
+//@   property C12, C13
+//@   safe
+//@   pure
+//@   requires s.Communicator != nil
+
+//@ func (s *ServerDnsListener) validateAndGetUser
+//@   property C12, C13
+//@   safe
+//@   terminates
+//@   requires srvWF(s) && userId < 1296 && remoteAddr != nil
+//@   modifies s.connections[userId].lastConnection
+//@   ensures srvWF(s)                                                                                   :table_kept
+//@   ensures err == nil ==> result != nil && result == s.connections[userId] && sameAddr(result.remoteAddress, remoteAddr)    :live_session_of_the_same_peer
+//@   ensures err != nil && result != nil && result == s.connections[userId] ==> !sameAddr(result.remoteAddress, remoteAddr)   :foreign_address_rejected
+//@   ensures err != nil && s.connections[userId] != nil ==> s.connections[userId].lastConnection == old(s.connections[userId].lastConnection)   :rejected_message_leaves_session_untouched
+//@   ensures err != nil ==> err == commands.BadIp || err == commands.BadConn || err == commands.BadUser   :tunnel_error_codes
+//@   ensures err == commands.BadConn ==> s.connections[userId] == nil && result != nil && result == s.oldConnections[userId]
+//@   ensures err == commands.BadUser ==> s.connections[userId] == nil && result == nil
+
+//@ func (s *ServerDnsListener) newUser
+//@   property C12, C13
+//@   safe
+//@   terminates
+//@   requires srvWF(s) && a != nil
+//@   modifies s.connections[*]
+//@   ensures srvBase(s)                                                                                 :table_kept
+//@   ensures connsWF(s)                                                                                 :live_sessions_well_formed
+//@   ensures oldWF(s)                                                                                   :retired_sessions_well_formed
+//@   ensures err == nil ==> result != nil && result.UserId < 1296 && old(s.connections[result.UserId]) == nil && s.connections[result.UserId] == result   :takes_a_free_slot
+//@   ensures err == nil ==> (forall i :: 0 <= i && i < 1296 && i != int(result.UserId) ==> s.connections[i] == old(s.connections[i]))   :other_sessions_untouched
+//@   ensures err != nil ==> (forall i :: 0 <= i && i < 1296 ==> s.connections[i] == old(s.connections[i]))    :full_table_untouched
+//@   loop 1 vars iter int, rng []*userConnection
+//@   loop 1 invariant srvWF(s) && len(rng) == 1296 && &rng[0] == &s.connections[0]
+//@   loop 1 invariant forall i :: 0 <= i && i < 1296 ==> s.connections[i] == old(s.connections[i])
+
+//@ func (s *ServerDnsListener) closeConnection
+//@   property C12, C13
+//@   safe
+//@   terminates
+//@   requires srvWF(s) && u != nil && u.UserId < 1296 && u.remoteAddress != nil
+//@   modifies s.connections[*], s.oldConnections[*], u.closed, s.connections[u.UserId].lastConnection
+//@   ensures srvBase(s)                                                                                 :table_kept
+//@   ensures connsWF(s)                                                                                 :live_sessions_well_formed
+//@   ensures oldWF(s)                                                                                   :retired_sessions_well_formed
+//@   ensures forall i :: 0 <= i && i < 1296 && i != int(u.UserId) ==> s.connections[i] == old(s.connections[i]) && s.oldConnections[i] == old(s.oldConnections[i])   :only_own_slot
+//@   ensures old(s.connections[u.UserId]) != u ==> s.connections[u.UserId] == old(s.connections[u.UserId])     :newer_occupant_survives
+//@   ensures s.connections[u.UserId] == nil || s.connections[u.UserId] == old(s.connections[u.UserId])
+
+// the pruning goroutine: retired entries are only ever removed from the retired table
+//@ func NewServerDnsListener$1
+//@   property C13
+//@   freevars srv *ServerDnsListener
+//@   requires srv != nil && len(srv.connections) == 1296 && len(srv.oldConnections) == 1296 && srv.usersLock != nil && srv.Communicator != nil
+//@   loop 1 invariant srv != nil && len(srv.connections) == 1296 && len(srv.oldConnections) == 1296 && srv.usersLock != nil && srv.Communicator != nil
+//@   loop 2 vars iter int, rng []*userConnection
+//@   loop 2 invariant len(srv.connections) == 1296 && len(srv.oldConnections) == 1296 && srv.usersLock != nil && srv.Communicator != nil
+//@   loop 3 vars iter int, rng []*userConnection
+//@   loop 3 invariant len(srv.connections) == 1296 && len(srv.oldConnections) == 1296 && srv.usersLock != nil && srv.Communicator != nil
+//@   loop 3 modifies srv.oldConnections[*]
+
+//@ func (s *ServerDnsListener) Closed
+//@   property C13
+//@   pure
+//@   requires s.Communicator != nil
